@@ -3,7 +3,8 @@
    RoundTripper; the driver waits for quiescence after every macro step and
    takes a snapshot.  The model runs the small-step machine of
    C13_RemoteKeys.v on the event list the macro step stands for. *)
-From OIDC Require Import Lib C13_RemoteKeys.
+From OIDC Require Import Lib.
+From OIDC Require Export C13_RemoteKeys.
 
 (* symbolic signatures (DESIGN 4.4): key material k verifies exactly what k signed *)
 Definition sym_verify (k : jwk) (t : token) : bool := Nat.eqb (k_mat k) (t_signer t).
